@@ -337,7 +337,7 @@ Definition step (s : gstate) (e : event) : option gstate :=
   | EInitOk =>
       match est en with
       | EEmpty | EDone _ =>
-          let ep := if einit en then S (eep en) else 0%nat in
+          let ep := if einit en then S (eep en) else eep en in
           Some (put_env s (mkE EEmpty ep true (ep :: eissued en) [] (glog en) None (edone en)))
       | _ => None
       end
